@@ -383,8 +383,9 @@ func (d *decEngine) mapEntryLoop(ls *LoopSpec, fs *ast.ForStmt, f *FieldSchema) 
 		text := "before the first field of an entry the key and value variables hold the zero value of their kind (missing parts take the default)"
 		if f.Val.Kind != "message" {
 			goal = and(goal, c.valSame(pre, vv, c.zeroValue(f.Val.GoType)))
-		} else {
-			text = "before the first field of an entry the key variable holds the zero value (a missing message value: see the C06 finding on nil map values)"
+		} else if p, ok := vv.(PtrV); ok {
+			goal = and(goal, "(not (= "+p.Ref+" 0))")
+			text = "before the first field of an entry the key variable holds the zero value and the value variable a non-nil (new, empty) message"
 		}
 		c.addObl(Obl{Name: name("entry-defaults[key and value start at zero]"), Kind: "decode", OpaqueSpec: true, Guard: pre.guard, Goal: goal, Pos: c.pos(fs.Pos()), Text: text})
 	}
